@@ -14,7 +14,8 @@ if [ "$before" = "$after" ]; then echo "MUTANT $name: sed did not change $file";
 VERIF_REPO=$d VERIF_EVIDENCE_DIR=/tmp/vf-mut-ev-$$ VERIF_OUT_DIR=/tmp/vf-mut-out-$$ /verif/check $id $tier > /tmp/vf-mut-log-$$ 2>&1
 rc=$?
 grep -E "VIOLATION|FAIL|evaluations=|machinery" /tmp/vf-mut-log-$$ | cut -c1-400 | head -8
-echo "MUTANT $name -> exit $rc ($( [ $rc = 1 ] && echo CAUGHT || echo MISSED ))"
+mkdir -p /verif/out/mutants
+echo "MUTANT $name [$id $tier] $file -> exit $rc ($( [ $rc = 1 ] && echo CAUGHT || echo MISSED )) $(grep -m1 -o 'check=[^ ]*' /tmp/vf-mut-log-$$)" | tee /verif/out/mutants/$id-$name.txt
 rm -rf $d /tmp/vf-mut-ev-$$ /tmp/vf-mut-out-$$ /tmp/vf-mut-log-$$
 # drop the mutant binaries from the build cache
 exit 0
